@@ -19,11 +19,27 @@ def gen(seed):
             x += rnd.randint(2000, 3400)
         else:
             x += 2000 + int(rnd.expovariate(1 / 7500.0))       # spacing >= 2 kb, mean about 9.5 kb overall
-    ref = (1, pos[-1] + rnd.randint(1000, 20000), pos)
     queries, truth = [], {}
+    windows = []
     for qi in range(8):
         k = rnd.randint(15, 45)
         a = rnd.randint(4, n - 4 - k) if not (dense_start and qi < 3) else 4 + qi % 2       # windows right at the allowed distance from the start
+        windows.append((a, k))
+    # near-duplicates: behind the last label the reference repeats two of the planted windows with every label displaced by up to 450 bp
+    # (still >= 2 kb apart): each label of the query pairs there too, but only the exact copy is the true placement
+    x = pos[-1]
+    for a, k in windows[5:7]:
+        x += rnd.randint(20000, 60000)
+        dup = [x + (p - pos[a]) + rnd.choice((-1, 1)) * rnd.randint(60, 450) for p in pos[a:a + k]]
+        if all(b - c >= 2000 for c, b in zip(dup, dup[1:])) and dup[0] - pos[-1] >= 2000:
+            pos = pos + dup
+            x = dup[-1]
+    for _ in range(6):
+        x += 2000 + int(rnd.expovariate(1 / 7500.0))
+        pos.append(x)
+    ref = (1, pos[-1] + rnd.randint(1000, 20000), pos)
+    for qi in range(8):
+        a, k = windows[qi]
         rev = rnd.random() < 0.5
         lab = [p - pos[a] for p in pos[a:a + k]]
         if rev:
@@ -92,7 +108,8 @@ def bounded(repo, tier, seed):
             key = f"{RUN}::monitor::C06::{clause}"
             viol.setdefault(key, dict(key=key, blame=RUN, input=dict(seed=case[0], mode=case[1]), observed=detail, required='C06 statement'))
     return result(n, n, "single-reference maps of 60-140 labels with spacing >= 2 kb (mean about 9.5 kb); per map 8 planted queries = exact copies of interior windows "
-                        "of 15-45 labels at least 4 labels from either end, either strand, random coordinate offset and trailing length; default parameters; "
+                        "of 15-45 labels at least 4 labels from either end, either strand, random coordinate offset and trailing length; two of the windows re-appear further "
+                        "on as near-duplicates (every label displaced by 60-450 bp); default parameters; "
                         "the planted query must be reported once, on the true reference and strand, with exactly the true pairs, HitEnum nM, every pair within "
                         "200 bp of its seed diagonal; every planting is non-trivial (distinct window)", [dict(seed=cases[0][0], mode=cases[0][1])],
                   list(viol.values())[:5], exhaustive=False, bounds=f"{len(cases)} maps x 8 plantings")
